@@ -64,6 +64,8 @@ def run_property(prop, tier, seed, jobs=None, only=None):
         for i, v in enumerate(r.get('validations', [])):
             requests.append(dict(kind='validate', prop=prop, case=r['case'], kwargs=r['kwargs'], idx=i, env=v['env'],
                                  extra=v.get('extra', {})))
+        for i, pc in enumerate(r.get('pchecks', [])):
+            requests.append(dict(kind='pcheck', prop=prop, case=r['case'], kwargs=r['kwargs'], idx=i, env=pc.get('env', {}), extra=pc.get('extra', {})))
         for i, c in enumerate(r.get('candidates', [])[:MAX_REPLAYS_PER_CASE]):
             requests.append(dict(kind='replay', prop=prop, case=r['case'], kwargs=r['kwargs'], idx=i, env=c['env'],
                                  name=c['name'], info=c['info']))
@@ -87,6 +89,23 @@ def run_property(prop, tier, seed, jobs=None, only=None):
                 n_valid_ok += 1
             else:
                 valid_bad.append((r['case'], why))
+        for i, pc in enumerate(r.get('pchecks', [])):
+            # obligations that need the real numeric solver are decided in the pristine interpreter (solver queries included)
+            a = ans.get(('pcheck', r['case'], i))
+            if a is None or 'error' in a:
+                inconclusive.append((r['case'], 'pristine check failed: %s' % ((a or {}).get('error', 'no answer'))[:300]))
+                continue
+            po = a['obs']
+            r['obligations'].extend(po.get('obligations', []))
+            r['solver_s'] = r.get('solver_s', 0) + po.get('solver_s', 0)
+            r['distinct'] = r.get('distinct', 0) + len({o['name'] for o in po.get('obligations', [])})
+            r.setdefault('samples', []).extend(po.get('samples', [])[:2])
+            for o in po.get('obligations', []):
+                if o['verdict'] == 'unknown':
+                    inconclusive.append((r['case'], o['name']))
+            for v in po.get('violations', []):
+                path = replay.write_replay(prop, r['case'], r['kwargs'], dict(name=v['name'], env=v.get('env', {}), info=v.get('info', {})), v['text'])
+                violations.append((r['case'], v['name'], v['text'], path))
         for i, c in enumerate(r.get('candidates', [])[:MAX_REPLAYS_PER_CASE]):
             a = ans.get(('replay', r['case'], i))
             confirmed, text = mod.judge(r['case'], r['kwargs'], c, a) if a else (None, 'no answer from the pristine interpreter')
